@@ -271,7 +271,9 @@ func register[T any](s spec[T]) {
 				// layer 1 tie: the model's nesting check on the real token stream
 				bl := "bal " + common.EncToks(p.toks)
 				if p.panicked == "" && p.err == nil {
-					r.Line(bl, common.B(balancedToks(p.toks)))
+					if repr {
+						r.Line(bl, common.B(balancedToks(p.toks)))
+					}
 					if !balancedToks(p.toks) {
 						r.Fail("well-formed", s.name+"/TokenReader/unbalanced", append(lines, r.Prop+" "+bl), "token stream is not balanced\n"+describe())
 					}
